@@ -7,6 +7,7 @@ import (
 	"go/types"
 	"sort"
 	"strings"
+	"sync"
 
 	"golang.org/x/tools/go/ssa"
 )
@@ -24,18 +25,18 @@ import (
 type PassKind int
 
 const (
-	ErrNil    PassKind = iota // error result == nil (or errors.Is/As(err, accepted))
-	IsTrue                    // bool result is true
-	IsFalse                   // bool result is false
-	NonNil                    // pointer / interface / slice / map result != nil
-	IsNil                     // result == nil (non-error)
-	NonNeg                    // signed integer result >= 0 (rejecting test is `< 0`)
-	Executed                  // merely having executed the call on every path
-	EqConst                   // result == named constant / != others: see Guard.Consts
-	LenNonZero                // len(result) != 0 / > 0
-	ErrIs                     // errors.Is/As(result, one of Accept) is true
-	NeConst                   // result != Const
-	ErrNotIs                  // errors.Is/As(result, one of Accept) is false (combine with NonNil for 'definitely failed')
+	ErrNil     PassKind = iota // error result == nil (or errors.Is/As(err, accepted))
+	IsTrue                     // bool result is true
+	IsFalse                    // bool result is false
+	NonNil                     // pointer / interface / slice / map result != nil
+	IsNil                      // result == nil (non-error)
+	NonNeg                     // signed integer result >= 0 (rejecting test is `< 0`)
+	Executed                   // merely having executed the call on every path
+	EqConst                    // result == named constant / != others: see Guard.Consts
+	LenNonZero                 // len(result) != 0 / > 0
+	ErrIs                      // errors.Is/As(result, one of Accept) is true
+	NeConst                    // result != Const
+	ErrNotIs                   // errors.Is/As(result, one of Accept) is false (combine with NonNil for 'definitely failed')
 )
 
 // Comp is one component of a guard's pass condition.
@@ -181,6 +182,17 @@ func Flow(fn *ssa.Function, guards []Guard, derived ...Derived) *GuardFlow {
 		}
 		if g.Value == nil {
 			continue
+		}
+		// parameters and captured variables are values too (not instructions)
+		for _, prm := range fn.Params {
+			if g.Value(fn, prm) {
+				gf.results[prm] = append(gf.results[prm], resRef{gi, 0})
+			}
+		}
+		for _, fv := range fn.FreeVars {
+			if g.Value(fn, fv) {
+				gf.results[fv] = append(gf.results[fv], resRef{gi, 0})
+			}
 		}
 		for _, b := range fn.Blocks {
 			for _, in := range b.Instrs {
@@ -886,9 +898,9 @@ func (gf *GuardFlow) PassedNames(f factSet) []string {
 // EffectRule: in function Fn, every instruction satisfying Effect must have all
 // guards passed.
 type EffectRule struct {
-	Fn     string // short function name
-	Effect func(p *Prog, in ssa.Instruction) (desc string, ok bool)
-	Guards []Guard
+	Fn      string // short function name
+	Effect  func(p *Prog, in ssa.Instruction) (desc string, ok bool)
+	Guards  []Guard
 	Derived []Derived
 	// Need optionally restricts the guards (or derived facts) required at a site, by name; nil = all guards.
 	Need func(desc string) []string
@@ -1138,6 +1150,9 @@ func classifySuccess(v ssa.Value, successBool bool) tri {
 		if n == "fmt.Errorf" || n == "errors.New" {
 			return triF
 		}
+		if cal := StaticCallee(x); cal != nil && alwaysNonNilError(cal, 0) {
+			return triF
+		}
 		if strings.HasSuffix(n, "grpc/status.Error") || strings.HasSuffix(n, "grpc/status.Errorf") {
 			// status.Error(codes.OK, …) returns nil: a failure only for a constant non-OK code
 			if c, ok := intConst(x.Call.Args[0]); ok && c != 0 {
@@ -1356,4 +1371,60 @@ func closureCellAllFailures(v ssa.Value, successBool bool, resumeBlock bool) boo
 		}
 	}
 	return n > 0
+}
+
+var (
+	nonNilMemo   = map[*ssa.Function]bool{}
+	nonNilMemoMu sync.Mutex
+)
+
+// alwaysNonNilError: fn has a body, returns a single error, and every return is a
+// constructed error (fmt.Errorf, errors.New, a concrete value, a package-level error
+// variable, or a call of another such constructor). Used to recognise the repository's
+// own error wrappers (logicerr.Wrap, …) as failure returns.
+func alwaysNonNilError(fn *ssa.Function, depth int) bool {
+	if fn == nil || fn.Blocks == nil || depth > 3 {
+		return false
+	}
+	res := fn.Signature.Results()
+	if res.Len() != 1 || res.At(0).Type().String() != "error" {
+		return false
+	}
+	nonNilMemoMu.Lock()
+	v, ok := nonNilMemo[fn]
+	nonNilMemoMu.Unlock()
+	if ok {
+		return v
+	}
+	out := true
+	n := 0
+	for _, b := range fn.Blocks {
+		ret, ok := b.Instrs[len(b.Instrs)-1].(*ssa.Return)
+		if !ok {
+			continue
+		}
+		n++
+		switch x := ret.Results[0].(type) {
+		case *ssa.MakeInterface:
+		case *ssa.Call:
+			nm := CalleeName(x)
+			if nm == "fmt.Errorf" || nm == "errors.New" {
+				continue
+			}
+			if !alwaysNonNilError(StaticCallee(x), depth+1) {
+				out = false
+			}
+		case *ssa.UnOp:
+			if _, isG := x.X.(*ssa.Global); !(x.Op == token.MUL && isG) {
+				out = false
+			}
+		default:
+			out = false
+		}
+	}
+	out = out && n > 0
+	nonNilMemoMu.Lock()
+	nonNilMemo[fn] = out
+	nonNilMemoMu.Unlock()
+	return out
 }
